@@ -13,11 +13,18 @@ def main():
     from . import engine
     try:
         mod = importlib.import_module('checks.%s' % pid.lower())
-    except ImportError as e:
-        sys.stderr.write('HARNESS ERROR: no check for %s (%s)\n' % (pid, e))
+    except BaseException as e:      # a broken check module is a harness error (exit 2), never a violation (exit 1)
+        sys.stderr.write('HARNESS ERROR: cannot load the check for %s (%r)\n' % (pid, e))
         return 2
     return engine.main(mod, sys.argv[2:])
 
 
 if __name__ == '__main__':
-    sys.exit(main())
+    try:
+        code = main()
+    except SystemExit:
+        raise
+    except BaseException as e:
+        sys.stderr.write('HARNESS ERROR: %r\n' % (e,))
+        code = 2
+    sys.exit(code)
